@@ -148,6 +148,10 @@ static void run_ops(fdesc_t* me) {
       int r = fiber_tryjoin(t->f, &res);
       vrt_api("\"f\":\"%s\",\"ph\":\"ret\",\"op\":\"tryjoin\",\"o\":\"%s\",\"r\":%d,\"v\":\"%s\"", f, op->a1, r,
               vrt_name_of(res));
+    } else if (!strcmp(op->op, "awaitcounter")) {
+      fiber_mutex_t* m = drv_obj("mutex", op->a1);
+      int lim = atoi(op->a2);
+      while (m->counter > lim) fiber_yield();
     } else if (!strcmp(op->op, "awaitjoining")) {
       fdesc_t* t = fd_by_name(op->a1);
       while (t->f->detach_state != FIBER_DETACH_WAIT_TO_JOIN || !t->f->join_info) fiber_yield();
